@@ -244,4 +244,69 @@ def handle(req):
                 for n, s in all_schemas().items()}
     if req['cmd'] == 'lemma':
         return apply_lemma(req)
+    if req['cmd'] == 'expr':
+        return do_expr(req)
     raise ValueError(req['cmd'])
+
+
+# ---------------------------------------------------------------- proof-expression recipes
+def build_expr(mod, B, r):
+    """recipe -> ProofThunk, built with the REAL DSL of ProofExp (raises if the toolkit refuses)"""
+    k = r[0]
+    if k in ('prop1', 'prop2', 'prop3'):
+        return getattr(mod, k)()
+    if k == 'quant':
+        return mod.exists_quantifier()
+    if k == 'mp':
+        return mod.modus_ponens(build_expr(mod, B, r[1]), build_expr(mod, B, r[2]))
+    if k == 'dyn':
+        return mod.dynamic_inst(build_expr(mod, B, r[1]), {kv[0]: B.to_py(kv[1]) for kv in r[2]})
+    if k == 'inst':
+        return mod.instantiate(build_expr(mod, B, r[1]), {kv[0]: B.to_py(kv[1]) for kv in r[2]})
+    if k == 'gen':
+        return mod.exists_generalization(build_expr(mod, B, r[1]), P.EVar(r[2]))
+    if k == 'axiom':
+        return mod.load_axiom(mod._axioms[r[1]])
+    if k == 'lemma':
+        args = [build_expr(mod, B, a['thunk']) if 'thunk' in a else B.to_py(a['pattern']) for a in r[2]]
+        return getattr(mod, r[1])(*args)
+    raise ValueError(k)
+
+
+def build_module(B, spec):
+    from proof_generation.proof import ProofExp
+    base = Tautology if spec.get('lib', True) else ProofExp
+    mod = base()
+    mod._claims, mod._proof_expressions = [], []
+    mod._axioms = []
+    for sub in spec.get('imports', []):
+        mod.import_module(build_module(B, sub))
+    for a in spec.get('axioms', []):
+        if spec.get('raw_axioms'):
+            mod._axioms.append(B.to_py(a))
+        else:
+            mod.add_axiom(B.to_py(a))
+    for r in spec.get('proofs', []):
+        th = build_expr(mod, B, r)
+        mod._claims.append(th.conc)
+        mod._proof_expressions.append(th)
+    for c in spec.get('extra_claims', []):
+        mod._claims.append(B.to_py(c))
+    return mod
+
+
+def do_expr(req):
+    B = Bridge()
+    out = {'built': False}
+    try:
+        mod = build_module(B, req['module'])
+    except EXC as e:
+        out['error'] = type(e).__name__ + ': ' + str(e)[:150]
+        return out
+    out['built'] = True
+    out['advertised'] = [B.to_json(c) for c in mod._claims[:len(mod._proof_expressions)]]
+    if req.get('interps', True):
+        out['interps'] = run_under_all(mod, B)
+    for opt in req.get('traces', ()):
+        out['trace_opt' if opt else 'trace'] = modules.trace_module(mod, opt, B)
+    return out
